@@ -1,7 +1,14 @@
+mod c01;
 mod c07;
 mod c14;
 mod c17;
 mod common;
+mod corpus;
+mod dwarfref;
+mod e2w;
+mod e2x;
+mod isession;
+mod reftrace;
 mod sched;
 
 use common::*;
@@ -43,6 +50,35 @@ fn main() {
             let path = args.get(2).cloned().unwrap_or_else(|| usage());
             std::process::exit(replay(&path));
         }
+        "trace" => {
+            let exe = args.get(2).cloned().unwrap_or_else(|| usage());
+            match reftrace::trace_cached(&exe) {
+                Ok((t, _)) => {
+                    let fuzzy_r = t.steps.iter().filter(|s| s.regs == 0).count();
+                    let fuzzy_m = t.steps.iter().filter(|s| s.mem == 0).count();
+                    let maxd = t.stacks.iter().map(|s| s.len()).max().unwrap_or(0);
+                    println!("steps={} fuzzy_regs={} fuzzy_mem={} stacks={} max_depth={} exit={} stdout={:?}", t.steps.len(), fuzzy_r, fuzzy_m, t.stacks.len(), maxd, t.exit_code, t.stdout);
+                }
+                Err(e) => {
+                    eprintln!("trace failed: {e}");
+                    std::process::exit(2);
+                }
+            }
+        }
+        "corpus" => {
+            let bodies = corpus::quick_bodies();
+            match corpus::build_many(&bodies, &[corpus::Config::default_cfg()]) {
+                Ok(bs) => {
+                    for b in bs {
+                        println!("{}", b.exe);
+                    }
+                }
+                Err(e) => {
+                    eprintln!("{e}");
+                    std::process::exit(2);
+                }
+            }
+        }
         "worker" => {
             let kind = args.get(2).cloned().unwrap_or_else(|| usage());
             worker(&kind);
@@ -53,6 +89,16 @@ fn main() {
 
 fn run_check(id: &str, tier: Tier) -> i32 {
     match id {
+        "C01" => {
+            let mut r = Report::new("C01", tier, "model_checking");
+            r.parts.push(c01::part_c01(tier));
+            finish(r)
+        }
+        "C02" => {
+            let mut r = Report::new("C02", tier, "model_checking");
+            r.parts.push(c01::part_c02(tier));
+            finish(r)
+        }
         "C07" => {
             let mut r = Report::new("C07", tier, "exploration");
             r.parts.push(c07::part_parse(tier));
@@ -96,6 +142,7 @@ fn replay(path: &str) -> i32 {
             if got != want { 1 } else { 0 }
         }
         "sched" => sched::replay(rp),
+        "e2e" => e2x::replay(rp),
         e => {
             eprintln!("no replay handler for engine {e:?}");
             2
@@ -106,6 +153,9 @@ fn replay(path: &str) -> i32 {
 fn worker(kind: &str) {
     match kind {
         "sched" => sched::worker(),
+        "e2e" => e2w::worker(),
+        "multi" => e2w::multi_worker(),
+        "reftrace" => e2x::reftrace_worker(),
         _ => {
             eprintln!("unknown worker kind {kind}");
             std::process::exit(2)
